@@ -152,7 +152,8 @@ func c06Sim(r *simcore.Run) {
 	}
 	// a per-run pool biased to collide
 	pool := vDrawPool(s, 3, 6)
-	sources := []string{"s0", "s1", "s2"}
+	// (source ids of one provider often share a prefix: files a.yaml and a.yaml.bak, endpoints .../team1 and .../team10)
+	sources := []string{"src:/rules/a", "src:/rules/a1", "src:/rules/a10"}
 	ids := []string{"r0", "r1", "r2", "r3"}
 	r.Logf("world default=%v defaultBT=%v pool=%v", w.withDefault, w.defaultBT, pool)
 
